@@ -17,6 +17,7 @@ import (
 	"sync"
 	"time"
 
+	"github.com/IrineSistiana/mosproxy/internal/dnsmsg"
 	"github.com/IrineSistiana/mosproxy/internal/upstream"
 	"github.com/miekg/dns"
 )
@@ -318,6 +319,9 @@ func c16runSeq(cs string) string {
 	c16.mu.Lock()
 	c16.closeAfterReply = m["close"] == "1"
 	c16.u, c16.t = "ok:auto:1", "ok:auto:0"
+	if m["cutat"] != "" { // the truncated replies are cut (undecodable): the header-only stand-in carries the wire id
+		c16.u = "ok:auto:1:cut" + m["cutat"]
+	}
 	c16.mu.Unlock()
 	defer func() { c16.mu.Lock(); c16.closeAfterReply = false; c16.mu.Unlock() }()
 	up, err := upstream.NewUpstream(fmt.Sprintf("127.0.0.1:%d", c16.port), upstream.Opt{})
@@ -325,6 +329,28 @@ func c16runSeq(cs string) string {
 		return "newupstream-error"
 	}
 	defer up.Close()
+	// warm=<n>: n ordinary exchanges first (complete replies, no TC), so that the wire ids of the UDP socket are
+	// beyond one octet when the truncated replies come
+	if w := atoi(m["warm"]); w > 0 {
+		c16.mu.Lock()
+		saveU := c16.u
+		c16.u = "ok:auto:0"
+		c16.mu.Unlock()
+		for i := 0; i < w; i++ {
+			q := new(dns.Msg)
+			q.SetQuestion(fmt.Sprintf("q%d.test.", 7000000+i), dns.TypeA)
+			qb, _ := q.Pack()
+			ctx, cancel := context.WithTimeout(context.Background(), time.Second)
+			if r, err := up.ExchangeContext(ctx, qb); err == nil && r != nil {
+				dnsmsg.ReleaseMsg(r)
+			}
+			cancel()
+		}
+		c16.mu.Lock()
+		c16.u = saveU
+		c16.mu.Unlock()
+	}
+	long := atoi(m["long"]) // octets of EDNS0 padding in every query (a query of 256 octets or more)
 	res := make([]string, k*par)
 	fail := atoi(m["fail"]) // during the first `fail` rounds the TCP server closes without replying
 	// during the first `giveup` rounds the TCP server answers after 400 ms and the caller's deadline is 150 ms: the
@@ -359,6 +385,13 @@ func c16runSeq(cs string) string {
 				q := new(dns.Msg)
 				q.SetQuestion(fmt.Sprintf("q%d.test.", nonce), dns.TypeA)
 				q.Id = uint16(0x2222 + idx)
+				if long > 0 {
+					o := new(dns.OPT)
+					o.Hdr.Name, o.Hdr.Rrtype = ".", dns.TypeOPT
+					o.SetUDPSize(1232)
+					o.Option = append(o.Option, &dns.EDNS0_PADDING{Padding: make([]byte, long)})
+					q.Extra = append(q.Extra, o)
+				}
 				qb, _ := q.Pack()
 				ctx, cancel := context.WithTimeout(context.Background(), timeout)
 				r, err := up.ExchangeContext(ctx, qb)
@@ -405,6 +438,10 @@ func c16genSeq(r *rand.Rand, thorough bool, emit func(c, cat string)) {
 	}
 	// a TCP leg that fails for a while and then works again: the upstream must try it again for the very next
 	// truncated reply (no memory of the failure)
+	// cut truncated replies after a few hundred exchanges on the socket (wire ids above 255); queries of 256 octets
+	// and more (the TCP frame's length prefix needs both octets)
+	emit(fmt.Sprintf("seq=3 par=1 close=0 gap=5 warm=%d cutat=%d q=%d", 260+r.Intn(300), 20+r.Intn(60), 1+r.Intn(1<<20)), "warm-cut")
+	emit(fmt.Sprintf("seq=3 par=%d close=%d gap=5 long=%d q=%d", []int{1, 3}[r.Intn(2)], r.Intn(2), 230+r.Intn(300), 1+r.Intn(1<<20)), "long-query")
 	// a caller that gives up while the TCP leg's reply is still outstanding: the next truncated query goes to a
 	// connection that owes nothing (one-at-a-time connections, C06)
 	for i := 0; i < 1+n/20; i++ {
